@@ -133,6 +133,7 @@ type world struct {
 	chainEnds  map[int]bool // ids of final chain links that have been handled
 	childPIDs  [][]*actor.PID
 	swapped    map[int]bool
+	byst       *actor.PID
 }
 
 func (w *world) add(e Entry) {
@@ -547,6 +548,23 @@ func (w *world) await(pid string, gate bool, wantStopped int, sync int, what str
 				w.e.Send(&actor.PID{Address: w.pid.Address, ID: w.pid.ID}, SyncMsg{N: follow})
 			}
 		case <-deadline:
+			// Slow, or never?  Measured against the engine instead of the clock (as in props/eng): the
+			// actor is registered and has been sent what it is waited for; a bystander actor on the same
+			// engine answers 300 requests issued now, one after the other; if the actor has still not
+			// moved after that, it rests with unprocessed messages.  Not while shrinking (short limits).
+			if waitLimit >= 30*time.Second && w.byst != nil && !waitDeath && w.e.Registry.GetPID("target", "1") != nil {
+				for i := 0; i < 300; i++ {
+					if r, err := w.e.Request(w.byst, SyncMsg{N: 0}, 10*time.Second).Result(); err != nil || r != "pong" {
+						return fmt.Errorf("%w: %s (and the bystander did not answer either)", ErrInconclusive, what)
+					}
+				}
+				select {
+				case <-w.gateIn:
+				case <-w.syncCh:
+				case <-time.After(2 * time.Second):
+					return fmt.Errorf("%w: the actor is registered and was sent what it is waited for (%s); %v later, and after a bystander actor on the same engine has answered 300 requests, it has still not handled it: the messages rest unprocessed in its inbox - lost or overtaken for good", ErrDiverged, what, waitLimit)
+				}
+			}
 			return fmt.Errorf("%w: %s", ErrInconclusive, what)
 		}
 	}
@@ -584,6 +602,7 @@ func Run(spec Spec, waitOrphans bool) (*Obs, *Sim, error) {
 			c.Respond("pong")
 		}
 	}, "bystander", actor.WithID("b"))
+	w.byst = byst
 
 	sim := NewSim(spec)
 	obs := &Obs{PillDone: map[int]bool{}}
